@@ -490,6 +490,12 @@ def x7_shutdown_flag(F, R):
             R.check(v[0] == 'const' and v[1] == 1, 'X7', '%s:%s:set-only' % (b['id'], last['n']), site(sg, nd), 'the flag is assigned the constant true',
                     'the connection flag `%s` is assigned %s: an event arriving after the peer\'s shutdown can clear it again, the connection is then never reset and '
                     'removed once its buffered data has been read' % (last['n'], fmt(v)[:80]))
+            # ... and only where a peer event is being processed: the flag means "the peer shut down while data was buffered"; set by a local
+            # operation it makes the next draining recv reset and remove a connection the peer never closed
+            on_event = any('VsockEvent' in l_['ty'] for l_ in b['locals'])
+            R.check(on_event, 'X7', '%s:%s:set-on-peer-event' % (b['id'], last['n']), site(sg, nd), 'the flag is set while a peer event is processed',
+                    '%s sets the connection flag `%s` although it processes no event from the peer: the connection is reset and removed by the next '
+                    'recv that drains the buffer, without the peer having closed it' % (b['name'], last['n']))
     R.count('shutdown_flag_stores', n)
     # the connection's state flags start cleared and are only ever set: a new connection (a connect that still waits for the peer's
     # response, an incoming request not yet accepted) is constructed with every boolean false, and every later assignment stores
